@@ -65,6 +65,11 @@ enum PVal {
     /// the stance / confidence of a VISIBLE assertion: differs only when that field is masked
     MaskedStance(usize),
     MaskedConfidence(usize),
+    /// the mode of a VISIBLE assertion, the name / key of a VISIBLE person: differ only when every
+    /// authority of p that reaches the kind masks that member
+    MaskedMode(usize),
+    MaskedName(usize),
+    MaskedKey(usize),
     /// the id of the k-th transaction AFTER the common part of the script (in S2 a commit of the
     /// hidden tail, in S1 one of the padding commits on a hidden element)
     TailTx(u64),
@@ -97,6 +102,9 @@ struct Script {
     evidence: Vec<String>,
     /// (index into hidden_vals, symbol) of the nickname attribute of VISIBLE persons
     masked_nicks: Vec<(usize, String)>,
+    /// index into hidden_vals of the name / key of VISIBLE persons (column 0 = the value in S1)
+    masked_names: Vec<usize>,
+    masked_keys: Vec<usize>,
     /// id the first element of the tail gets in the bigger instance (it exists there only)
     first_tail_concept: String,
     /// names of the visible persons
@@ -120,6 +128,9 @@ struct World {
     vary_facets: bool,
     vary_stance: bool,
     vary_confidence: bool,
+    vary_mode: bool,
+    vary_name: bool,
+    vary_key: bool,
     /// Space sequence after the common part of the script
     base_seq: u64,
     /// Space sequence before the first step of the script
@@ -146,6 +157,24 @@ impl Mode {
 }
 
 impl World {
+    /// An instance in which nothing varies (timeline / delegation monitors build one store only).
+    fn plain(nx: CognitiveNexus) -> World {
+        World {
+            nx,
+            sym: BTreeMap::new(),
+            vary_hidden: false,
+            vary_attrs: false,
+            vary_facets: false,
+            vary_stance: false,
+            vary_confidence: false,
+            vary_mode: false,
+            vary_name: false,
+            vary_key: false,
+            base_seq: 0,
+            start_seq: 0,
+            hidden_as: HiddenAs::Label("secret".into()),
+        }
+    }
     fn id(&self, s: &str) -> String {
         self.sym.get(s).cloned().unwrap_or_else(|| format!("<unbound {s}>"))
     }
@@ -165,6 +194,9 @@ impl World {
                     PVal::MaskedFacet(i) => script.hidden_vals[if self.vary_facets { variant } else { 0 }][*i].clone(),
                     PVal::MaskedStance(i) => script.hidden_vals[if self.vary_stance { variant } else { 0 }][*i].clone(),
                     PVal::MaskedConfidence(i) => script.hidden_vals[if self.vary_confidence { variant } else { 0 }][*i].clone(),
+                    PVal::MaskedMode(i) => script.hidden_vals[if self.vary_mode { variant } else { 0 }][*i].clone(),
+                    PVal::MaskedName(i) => script.hidden_vals[if self.vary_name { variant } else { 0 }][*i].clone(),
+                    PVal::MaskedKey(i) => script.hidden_vals[if self.vary_key { variant } else { 0 }][*i].clone(),
                 },
             );
         }
@@ -190,8 +222,9 @@ async fn run_steps(w: &mut World, script: &Script, steps: &[Step], variant: usiz
             }
             Step::Classify { sym, label } => {
                 let label: &str = if *label == HIDDEN_LABEL {
-                    match &w.hidden_as {
+                    match w.hidden_as.of(sym) {
                         HiddenAs::Label(l) => l.as_str(),
+                        HiddenAs::PerKind(..) => return Err("nested per-kind hiding".into()),
                         HiddenAs::Unlabeled => {
                             // no label at all; a padding commit keeps "one step = one commit"
                             let n = space_seq(&w.nx).await?;
@@ -223,6 +256,32 @@ enum HiddenAs {
     Label(String),
     /// left unlabeled: the Space default (`internal`) applies, which a `public` ceiling does not reach
     Unlabeled,
+    /// per element kind (with a default): an element is hidden by what the sources that reach ITS
+    /// kind allow - a label within the ceiling of a source over other kinds, or any label at all
+    /// for a kind that no source of p reaches
+    PerKind(BTreeMap<String, HiddenAs>, Box<HiddenAs>),
+}
+
+/// The element kind a script symbol names.
+fn kind_of_sym(sym: &str) -> &'static str {
+    if sym.starts_with("evidence") {
+        "evidence"
+    } else if sym.starts_with("prop") || sym.starts_with("tail_prop") {
+        "proposition"
+    } else if sym.starts_with("assertion") || sym.starts_with("tail_assertion") {
+        "assertion"
+    } else {
+        "concept"
+    }
+}
+
+impl HiddenAs {
+    fn of(&self, sym: &str) -> &HiddenAs {
+        match self {
+            HiddenAs::PerKind(per, default) => per.get(kind_of_sym(sym)).unwrap_or(default),
+            other => other,
+        }
+    }
 }
 
 /// Symbol of the always-present hidden element used for commit-count padding.
@@ -256,9 +315,10 @@ fn gen_script(rng: &mut Rng, size: usize) -> Script {
     for i in 0..n_persons {
         let sym = format!("person{i}");
         let hidden = i >= 2 && rng.chance(2, 5);
-        let (name, rank, nick, strength) = if hidden {
+        let (name, key, rank, nick, strength) = if hidden {
             (
                 hid(&mut s, json!(two_words(rng)), json!(two_words(rng))),
+                hid(&mut s, json!(format!("pk{i}-{}", rng.below(50))), json!(format!("pk{i}-{}", rng.below(50)))),
                 hid(&mut s, json!(rng.below(100)), json!(rng.below(100))),
                 hid(&mut s, json!(format!("nick{}", rng.below(50))), json!(format!("nick{}", rng.below(50)))),
                 hid(&mut s, json!(rng.below(100) as f64 / 100.0), json!(rng.below(100) as f64 / 100.0)),
@@ -271,8 +331,25 @@ fn gen_script(rng: &mut Rng, size: usize) -> Script {
             }
             let visible_name = two_words(rng);
             s.visible_names.push(visible_name.clone());
+            // name and key of a visible person differ between S1 and S2 only under a mask that
+            // hides them from p (they are indexed: an element pattern can constrain them)
+            let name = match hid(&mut s, json!(visible_name), json!(two_words(rng))) {
+                PVal::Hidden(i) => {
+                    s.masked_names.push(i);
+                    PVal::MaskedName(i)
+                }
+                v => v,
+            };
+            let key = match hid(&mut s, json!(format!("pk{i}-{}", rng.below(50))), json!(format!("pk{i}-{}", 50 + rng.below(50)))) {
+                PVal::Hidden(i) => {
+                    s.masked_keys.push(i);
+                    PVal::MaskedKey(i)
+                }
+                v => v,
+            };
             (
-                PVal::Lit(json!(visible_name)),
+                name,
+                key,
                 as_attr(hid(&mut s, json!(rng.below(100)), json!(rng.below(100)))),
                 nick,
                 match hid(&mut s, json!(rng.below(100) as f64 / 100.0), json!(rng.below(100) as f64 / 100.0)) {
@@ -282,8 +359,8 @@ fn gen_script(rng: &mut Rng, size: usize) -> Script {
             )
         };
         s.steps.push(Step::Kml {
-            cmd: r#"CREATE CONCEPT ?c { TYPE "Person" NAME :name SET ATTRIBUTES {rank: :rank, nickname: :nick} SET FACET "MnemonicState" {memory_strength: :strength} }"#.into(),
-            params: vec![("name".into(), name), ("rank".into(), rank), ("nick".into(), nick), ("strength".into(), strength)],
+            cmd: r#"CREATE CONCEPT ?c { TYPE "Person" NAME :name SET FIELDS {key: :key} SET ATTRIBUTES {rank: :rank, nickname: :nick} SET FACET "MnemonicState" {memory_strength: :strength} }"#.into(),
+            params: vec![("name".into(), name), ("key".into(), key), ("rank".into(), rank), ("nick".into(), nick), ("strength".into(), strength)],
             binds: vec![("c".into(), sym.clone())],
         });
         if hidden {
@@ -360,9 +437,15 @@ fn gen_script(rng: &mut Rng, size: usize) -> Script {
                 PVal::Hidden(i) if !hidden_as => PVal::MaskedStance(i),
                 v => v,
             };
+            // likewise the mode (indexed, maskable)
+            let mode_val = match hid(&mut s, json!("observed"), json!(if hidden_as || rng.bool() { "stated" } else { "observed" })) {
+                PVal::Hidden(i) if !hidden_as => PVal::MaskedMode(i),
+                v => v,
+            };
             params.push((format!("actor{k}"), PVal::Ref(actor)));
             params.push((format!("conf{k}"), conf));
             params.push((format!("stance{k}"), stance_val));
+            params.push((format!("mode{k}"), mode_val));
             let st = if cite {
                 params.push((format!("ev{k}"), PVal::Ref(ev)));
                 format!(" SET STRUCTURAL {{ (\"evidence\", :ev{k}) {{role: \"support\"}} }}")
@@ -370,7 +453,7 @@ fn gen_script(rng: &mut Rng, size: usize) -> Script {
                 String::new()
             };
             cmd.push_str(&format!(
-                "CREATE ASSERTION ?a{k} {{ SET FIELDS {{ proposition: ?p, asserted_by: :actor{k}, stance: :stance{k}, mode: \"observed\", confidence: :conf{k} }}{st} }}\n"
+                "CREATE ASSERTION ?a{k} {{ SET FIELDS {{ proposition: ?p, asserted_by: :actor{k}, stance: :stance{k}, mode: :mode{k}, confidence: :conf{k} }}{st} }}\n"
             ));
             binds.push((format!("a{k}"), asym.clone()));
             new_as.push((asym, hidden_as));
@@ -473,10 +556,78 @@ const P: &str = "kip:principal:p";
 const LEAD: &str = "kip:principal:lead";
 const MID: &str = "kip:principal:mid";
 const STRANGER: &str = "kip:principal:stranger";
+const MID2: &str = "kip:principal:mid2";
 const GROUP: &str = "kip:group:readers";
+const DENIED_GROUP: &str = "kip:group:denied";
 const POLICY: &str = "kip:policy:space";
 
 const READ_ACTIONS: [&str; 6] = ["read", "search", "discover", "project", "read_history", "export"];
+const LADDER: [&str; 5] = ["public", "internal", "private", "sensitive", "secret"];
+const INFLUENCE: [&str; 4] = ["descriptive", "advisory", "behavioral", "executable"];
+const KINDS: [&str; 4] = ["concept", "proposition", "assertion", "evidence"];
+/// View members a field mask can name, per kind (`id`, `kind`, `space_id` survive every mask).
+const CONCEPT_FIELDS: [&str; 7] = ["name", "key", "attributes", "facets", "_system", "schema_ref", "aliases"];
+const ASSERTION_FIELDS: [&str; 7] = ["proposition_id", "asserted_by", "stance", "mode", "confidence", "lifecycle", "_system"];
+/// An instant that has certainly passed, in the engine's canonical form.
+const LONG_AGO: &str = "2020-01-01T00:00:00.000Z";
+
+fn rank_of(label: &str) -> usize {
+    LADDER.iter().position(|l| *l == label).unwrap_or(LADDER.len())
+}
+
+/// One more, independent source of authority for the same principal ("authority combined from
+/// several sources": the decision for one element is taken from the least restrictive source
+/// that reaches THAT element, never from what some other source says about something else).
+#[derive(Clone, Debug)]
+struct Extra {
+    /// "grant" | "group" | "policy" | "delegation"
+    via: &'static str,
+    kinds: Vec<String>,
+    fields: Vec<String>,
+    /// "" = no classification ceiling at all (only for sources that do not confer `read`, or
+    /// that lapsed long ago)
+    ceiling: &'static str,
+    ceiling_as_scope: bool,
+    max_results: Option<u64>,
+    actions: Vec<String>,
+    /// valid_until lies in the past: the source confers nothing
+    expired: bool,
+}
+
+impl Extra {
+    fn scope(&self) -> AuthorityScope {
+        AuthorityScope {
+            kinds: self.kinds.clone(),
+            classifications: if self.ceiling_as_scope && !self.ceiling.is_empty() { labels_up_to(self.ceiling) } else { vec![] },
+            ..Default::default()
+        }
+    }
+    fn constraints(&self) -> AuthorityConstraints {
+        AuthorityConstraints {
+            fields: self.fields.clone(),
+            max_results: self.max_results,
+            max_classification: if self.ceiling_as_scope { String::new() } else { self.ceiling.to_string() },
+            export: true,
+            ..Default::default()
+        }
+    }
+    fn conditions(&self) -> AuthorityConditions {
+        AuthorityConditions { valid_until: if self.expired { LONG_AGO.to_string() } else { String::new() }, ..Default::default() }
+    }
+    /// Whether this source lets p read elements at all.
+    fn reads(&self) -> bool {
+        !self.expired && self.actions.iter().any(|a| a == "read")
+    }
+}
+
+/// One Delegation record of a chain, stated explicitly (the delegation monitor draws it
+/// independently of what the delegator holds).
+#[derive(Clone, Debug)]
+struct LinkSpec {
+    actions: Vec<String>,
+    scope: AuthorityScope,
+    constraints: AuthorityConstraints,
+}
 
 #[derive(Clone, Debug)]
 struct GovCfg {
@@ -491,14 +642,24 @@ struct GovCfg {
     actions: Vec<String>,
     /// an explicit deny statement for this classification (in the Space policy)
     deny_label: Option<&'static str>,
+    /// the deny statement names a group p belongs to (which confers nothing) instead of p itself
+    deny_via_group: bool,
     /// a second, narrower grant held by p (least-restrictive-allow selection)
     second_grant: bool,
+    /// further independent sources of authority of p
+    extras: Vec<Extra>,
+    /// the combination of sources this configuration was built to exercise (a counter key)
+    shape: &'static str,
+    /// constraints.max_influence_authority of the primary source ("" = not stated)
+    influence: &'static str,
+    /// delegation paths: the Delegation records, delegator-first; empty = one ("delegation") or
+    /// two ("chain") links that restate the grant
+    links: Vec<LinkSpec>,
 }
 
 fn labels_up_to(ceiling: &str) -> Vec<String> {
-    let all = ["public", "internal", "private", "sensitive", "secret"];
-    let n = all.iter().position(|l| *l == ceiling).unwrap_or(1);
-    all[..=n].iter().map(|s| s.to_string()).collect()
+    let n = LADDER.iter().position(|l| *l == ceiling).unwrap_or(1);
+    LADDER[..=n].iter().map(|s| s.to_string()).collect()
 }
 
 fn gen_cfg(rng: &mut Rng) -> GovCfg {
@@ -508,7 +669,7 @@ fn gen_cfg(rng: &mut Rng) -> GovCfg {
         actions.push("read".into());
     }
     let kinds = if rng.chance(1, 4) {
-        let mut k: Vec<String> = ["concept", "proposition", "assertion", "evidence"].iter().filter(|_| rng.chance(2, 3)).map(|k| k.to_string()).collect();
+        let mut k: Vec<String> = KINDS.iter().filter(|_| rng.chance(2, 3)).map(|k| k.to_string()).collect();
         if k.is_empty() {
             k.push("concept".into());
         }
@@ -517,8 +678,9 @@ fn gen_cfg(rng: &mut Rng) -> GovCfg {
         vec![]
     };
     let fields = if rng.chance(1, 4) {
-        let mut f = vec!["name".to_string()];
-        for extra in ["attributes", "facets", "_system", "subject", "object", "predicate_ref", "stance", "confidence"] {
+        // most masks show the name; one in four does not (then `{name: ..}` is a probe too)
+        let mut f = if rng.chance(3, 4) { vec!["name".to_string()] } else { vec!["schema_ref".to_string()] };
+        for extra in ["attributes", "facets", "_system", "subject", "object", "predicate_ref", "stance", "confidence", "mode", "key", "proposition_id", "asserted_by"] {
             if rng.chance(1, 3) {
                 f.push(extra.to_string());
             }
@@ -536,7 +698,121 @@ fn gen_cfg(rng: &mut Rng) -> GovCfg {
         max_results: if rng.chance(1, 6) { Some(1 + rng.below(4)) } else { None },
         actions,
         deny_label: if rng.chance(1, 5) { Some(*rng.pick(&["private", "internal", "secret"])) } else { None },
+        deny_via_group: rng.chance(1, 3),
         second_grant: rng.chance(1, 4),
+        extras: vec![],
+        shape: "single_source",
+        influence: "",
+        links: vec![],
+    }
+}
+
+/// A random non-empty subset of `pool` that leaves out everything in `hide`.
+fn mask_without(rng: &mut Rng, pool: &[&str], hide: &[&str]) -> Vec<String> {
+    let mut f: Vec<String> = pool.iter().filter(|x| !hide.contains(x) && rng.chance(1, 2)).map(|x| x.to_string()).collect();
+    if f.is_empty() {
+        f.push(pool.iter().find(|x| !hide.contains(x)).unwrap_or(&"_system").to_string());
+    }
+    f
+}
+
+fn read_actions(rng: &mut Rng) -> Vec<String> {
+    READ_ACTIONS.iter().filter(|a| **a == "read" || rng.chance(3, 4)).map(|a| a.to_string()).collect()
+}
+
+const VIAS: [&str; 4] = ["grant", "group", "policy", "delegation"];
+
+/// Turns a single-source configuration into one whose authority comes from several sources.
+/// `n` selects the combination (round robin over the cases, so that a quick run has them all).
+fn combine_sources(rng: &mut Rng, cfg: &mut GovCfg, mode: Mode, n: u64) {
+    let via = *rng.pick(&VIAS);
+    let strs = |xs: &[&str]| xs.iter().map(|x| x.to_string()).collect::<Vec<String>>();
+    let same_ceiling = Extra { via, kinds: vec![], fields: vec![], ceiling: cfg.ceiling, ceiling_as_scope: rng.chance(1, 3), max_results: None, actions: read_actions(rng), expired: false };
+    if mode == Mode::MaskedFields && n % 4 != 0 {
+        // (the narrow second grant shows `name` of concepts: it would undo a mask built to hide it)
+        cfg.second_grant = false;
+    }
+    match mode {
+        Mode::MaskedFields => match n % 4 {
+            0 => {} // a single (masked) source, as generated
+            1 => {
+                // Assertions under a mask, Concepts and Propositions in full: what the least
+                // restrictive source shows of a Concept says nothing about an Assertion
+                cfg.shape = "masked_assertions_beside_unmasked_concepts";
+                let hide: &[&str] = [&["stance", "mode"][..], &["mode", "confidence"], &["stance", "confidence"], &["stance", "mode", "confidence"]][((n / 4) % 4) as usize];
+                cfg.kinds = if rng.bool() { strs(&["assertion"]) } else { strs(&["assertion", "evidence"]) };
+                cfg.fields = mask_without(rng, &ASSERTION_FIELDS, hide);
+                if rng.chance(2, 3) && !cfg.fields.iter().any(|f| f == "proposition_id") {
+                    cfg.fields.push("proposition_id".into());
+                }
+                cfg.max_results = None;
+                let kinds = if cfg.kinds.len() == 1 && rng.bool() { strs(&["concept", "proposition", "evidence"]) } else { strs(&["concept", "proposition"]) };
+                cfg.extras.push(Extra { kinds, ..same_ceiling });
+            }
+            2 => {
+                // the other way round
+                cfg.shape = "masked_concepts_beside_unmasked_assertions";
+                let hide: &[&str] = [&["name"][..], &["key"], &["attributes", "facets"], &["name", "key"]][((n / 4) % 4) as usize];
+                cfg.kinds = if rng.bool() { strs(&["concept"]) } else { strs(&["concept", "proposition"]) };
+                cfg.fields = mask_without(rng, &CONCEPT_FIELDS, hide);
+                cfg.max_results = None;
+                let kinds = if cfg.kinds.len() == 1 { strs(&["assertion", "evidence", "proposition"]) } else { strs(&["assertion", "evidence"]) };
+                cfg.extras.push(Extra { kinds, ..same_ceiling });
+            }
+            _ => {
+                // two sources over the same kinds whose masks differ (e.g. a mask by policy, another
+                // by grant): only what BOTH hide is certainly hidden
+                cfg.shape = "two_masks_over_the_same_kinds";
+                let hide: &[&str] = [&["attributes", "stance"][..], &["facets", "confidence"], &["key", "mode"], &["name", "stance", "mode"]][((n / 4) % 4) as usize];
+                let pool: Vec<&str> = CONCEPT_FIELDS.iter().chain(ASSERTION_FIELDS.iter()).chain(["subject", "object", "predicate_ref", "payload"].iter()).copied().collect();
+                cfg.kinds = vec![];
+                cfg.fields = mask_without(rng, &pool, hide);
+                let fields = mask_without(rng, &pool, hide);
+                cfg.extras.push(Extra { fields, ..same_ceiling });
+            }
+        },
+        Mode::HiddenElements => match n % 6 {
+            0 | 1 => {}
+            2 => {
+                // e.g. a ceiling on a group grant and another one on a direct grant: p reads up to
+                // the higher of the two, and nothing above it
+                cfg.shape = "two_sources_with_different_ceilings";
+                let ceiling = *rng.pick(&["public", "internal", "private", "sensitive"]);
+                let kinds = if rng.bool() { vec![] } else { cfg.kinds.clone() };
+                let fields = if rng.bool() { vec![] } else { cfg.fields.clone() };
+                cfg.extras.push(Extra { ceiling, kinds, fields, ..same_ceiling });
+            }
+            3 => {
+                // a second source without any ceiling that lapsed long ago confers nothing
+                cfg.shape = "unbounded_source_that_expired";
+                cfg.extras.push(Extra { ceiling: "", ceiling_as_scope: false, expired: true, actions: strs(&READ_ACTIONS), ..same_ceiling });
+            }
+            4 => {
+                // a source without any ceiling that confers search / history / export but not
+                // `read`: those commands still show only what the read authority reaches
+                cfg.shape = "unbounded_source_without_read";
+                let mut actions: Vec<String> = READ_ACTIONS.iter().filter(|a| **a != "read" && rng.chance(2, 3)).map(|a| a.to_string()).collect();
+                if actions.is_empty() {
+                    actions.push("search".into());
+                }
+                cfg.extras.push(Extra { ceiling: "", ceiling_as_scope: false, actions, ..same_ceiling });
+            }
+            _ => {
+                // different kinds by different sources, each with its own ceiling
+                cfg.shape = "kinds_split_over_two_ceilings";
+                let mut k = strs(&KINDS);
+                rng.shuffle(&mut k);
+                let cut = 1 + rng.usize(3);
+                cfg.kinds = k[..cut].to_vec();
+                let ceiling = *rng.pick(&["public", "internal", "private", "sensitive"]);
+                cfg.extras.push(Extra { ceiling, kinds: k[cut..].to_vec(), ..same_ceiling });
+            }
+        },
+    }
+    if cfg.shape != "single_source" && cfg.shape != "unbounded_source_that_expired" && rng.chance(1, 4) {
+        // and, on top, a lapsed source that would show everything
+        let via = *rng.pick(&VIAS);
+        cfg.extras.push(Extra { via, kinds: vec![], fields: vec![], ceiling: "", ceiling_as_scope: false, max_results: None, actions: strs(&READ_ACTIONS), expired: true });
     }
 }
 
@@ -553,9 +829,51 @@ impl GovCfg {
             fields: self.fields.clone(),
             max_results: self.max_results,
             max_classification: if self.ceiling_as_scope { String::new() } else { self.ceiling.to_string() },
+            max_influence_authority: self.influence.to_string(),
             export: true,
-            ..Default::default()
         }
+    }
+    /// (kinds, fields) of every source that lets p read elements.
+    fn read_sources(&self) -> Vec<(Vec<String>, Vec<String>)> {
+        let mut v = vec![(self.kinds.clone(), self.fields.clone())];
+        if self.second_grant {
+            v.push((vec!["concept".into()], vec!["name".into()]));
+        }
+        v.extend(self.extras.iter().filter(|x| x.reads()).map(|x| (x.kinds.clone(), x.fields.clone())));
+        v
+    }
+    /// The highest classification any reading source of p reaches.
+    fn top_ceiling(&self) -> &'static str {
+        let mut top = self.ceiling;
+        for x in self.extras.iter().filter(|x| x.reads()) {
+            if rank_of(x.ceiling) > rank_of(top) {
+                top = x.ceiling;
+            }
+        }
+        top
+    }
+    /// The highest classification p reads of elements of `kind`; None = no source reaches the kind.
+    fn top_ceiling_for(&self, kind: &str) -> Option<&'static str> {
+        let mut top: Option<&'static str> = None;
+        let mut see = |kinds: &[String], c: &'static str| {
+            if (kinds.is_empty() || kinds.iter().any(|k| k == kind)) && top.is_none_or(|t| rank_of(c) > rank_of(t)) {
+                top = Some(c);
+            }
+        };
+        see(&self.kinds, self.ceiling);
+        if self.second_grant {
+            see(&["concept".to_string()], "public");
+        }
+        for x in self.extras.iter().filter(|x| x.reads()) {
+            see(&x.kinds, x.ceiling);
+        }
+        top
+    }
+    /// Whether p holds the permission at Space scope (where no scope narrows).
+    fn holds(&self, action: &str) -> bool {
+        self.actions.iter().any(|x| x == action)
+            || (self.second_grant && matches!(action, "read" | "search"))
+            || self.extras.iter().any(|x| !x.expired && x.actions.iter().any(|a| a == action))
     }
 }
 
@@ -646,7 +964,39 @@ async fn install(nx: &CognitiveNexus, cfg: &GovCfg, who: &str, tag: &str, policy
                 may_redelegate: redelegate,
                 ..Default::default()
             };
-            if cfg.path == "delegation" {
+            if !cfg.links.is_empty() {
+                // explicit records: lead -> mid -> mid2 -> who, each link stating its own bounds
+                let n = cfg.links.len();
+                let mut nodes = vec![lead.clone()];
+                for m in [MID, MID2].iter().take(n - 1) {
+                    let id = format!("{m}{tag}");
+                    principal(nx, &id).await?;
+                    nodes.push(id);
+                }
+                nodes.push(who.to_string());
+                let mut parent = String::new();
+                for (i, link) in cfg.links.iter().enumerate() {
+                    let row = gov
+                        .create_delegation(
+                            DelegationDraft {
+                                space_id: DEFAULT_SPACE.into(),
+                                delegator_principal: nodes[i].clone(),
+                                delegate_principal: nodes[i + 1].clone(),
+                                actions: link.actions.clone(),
+                                scope: link.scope.clone(),
+                                constraints: link.constraints.clone(),
+                                parent_delegation: parent.clone(),
+                                may_redelegate: i + 1 < n,
+                                ..Default::default()
+                            },
+                            &nodes[i],
+                        )
+                        .await
+                        .map_err(gerr("create_delegation (explicit link)"))?;
+                    inst.delegations.push(row._id);
+                    parent = anda_cognitive_nexus::governance::store::delegation_id(row._id);
+                }
+            } else if cfg.path == "delegation" {
                 inst.delegations.push(gov.create_delegation(deleg(&lead, who, String::new(), false), &lead).await.map_err(gerr("create_delegation"))?._id);
             } else {
                 let mid = format!("{MID}{tag}");
@@ -699,16 +1049,90 @@ async fn install(nx: &CognitiveNexus, cfg: &GovCfg, who: &str, tag: &str, policy
             ._id,
         );
     }
+    install_extras(nx, cfg, who, tag, policy).await?;
     Ok(inst)
+}
+
+/// The further sources of authority of a combined configuration, each through its own route.
+async fn install_extras(nx: &CognitiveNexus, cfg: &GovCfg, who: &str, tag: &str, policy: &mut Vec<PolicyStatement>) -> Result<(), String> {
+    let gov = nx.governance();
+    for (i, x) in cfg.extras.iter().enumerate() {
+        let grant = |grantee: &str, group: &str, delegable: bool| GrantDraft {
+            space_id: DEFAULT_SPACE.into(),
+            grantee_principal: grantee.to_string(),
+            grantee_group: group.to_string(),
+            actions: x.actions.clone(),
+            scope: x.scope(),
+            constraints: x.constraints(),
+            conditions: x.conditions(),
+            delegation_allowed: delegable,
+            ..Default::default()
+        };
+        match x.via {
+            "grant" => {
+                gov.create_grant(grant(who, "", false), SYSTEM_PRINCIPAL).await.map_err(gerr("create_grant (extra)"))?;
+            }
+            "group" => {
+                let gid = format!("kip:group:extra{i}{tag}");
+                gov.put_group(GroupDraft { group_id: gid.clone(), name: "more readers".into(), description: "verif".into(), members: vec![who.to_string()] }, SYSTEM_PRINCIPAL)
+                    .await
+                    .map_err(gerr("put_group (extra)"))?;
+                gov.create_grant(grant("", &gid, false), SYSTEM_PRINCIPAL).await.map_err(gerr("create_grant (extra, group)"))?;
+            }
+            "policy" => policy.push(PolicyStatement {
+                effect: "allow".into(),
+                principals: vec![who.to_string()],
+                actions: x.actions.clone(),
+                resource: x.scope(),
+                conditions: x.conditions(),
+                constraints: x.constraints(),
+                ..Default::default()
+            }),
+            _ => {
+                let lead = format!("kip:principal:lead-extra{i}{tag}");
+                principal(nx, &lead).await?;
+                gov.create_grant(grant(&lead, "", true), SYSTEM_PRINCIPAL).await.map_err(gerr("create_grant (extra, delegable)"))?;
+                gov.create_delegation(
+                    DelegationDraft {
+                        space_id: DEFAULT_SPACE.into(),
+                        delegator_principal: lead.clone(),
+                        delegate_principal: who.to_string(),
+                        actions: x.actions.clone(),
+                        scope: x.scope(),
+                        conditions: x.conditions(),
+                        constraints: x.constraints(),
+                        ..Default::default()
+                    },
+                    &lead,
+                )
+                .await
+                .map_err(gerr("create_delegation (extra)"))?;
+            }
+        }
+    }
+    Ok(())
 }
 
 /// The whole control-plane part of a configuration: p, a stranger, optional deny statement.
 async fn configure(nx: &CognitiveNexus, cfg: &GovCfg) -> Result<(Installed, Vec<PolicyStatement>), String> {
     let mut policy = vec![];
     if let Some(l) = cfg.deny_label {
+        // the deny reaches p by name, or through a group p belongs to that confers nothing:
+        // either way it wins over every allow, whatever source the allow comes from
+        let (principals, groups) = if cfg.deny_via_group {
+            principal(nx, P).await?;
+            nx.governance()
+                .put_group(GroupDraft { group_id: DENIED_GROUP.into(), name: "denied".into(), description: "verif".into(), members: vec![P.to_string()] }, SYSTEM_PRINCIPAL)
+                .await
+                .map_err(gerr("put_group (denied)"))?;
+            (vec![], vec![DENIED_GROUP.to_string()])
+        } else {
+            (vec![P.to_string()], vec![])
+        };
         policy.push(PolicyStatement {
             effect: "deny".into(),
-            principals: vec![P.to_string()],
+            principals,
+            groups,
             actions: vec!["read".into()],
             resource: AuthorityScope { classifications: vec![l.to_string()], ..Default::default() },
             ..Default::default()
@@ -726,10 +1150,21 @@ fn session(nx: &CognitiveNexus, who: &str) -> Session {
     nx.session(AuthContext::principal(who))
 }
 
-/// Whether every authority of p under `cfg` masks `field` (the narrow second grant only ever
-/// shows `name`, so it masks whatever the first one masks).
-fn masks(cfg: &GovCfg, field: &str) -> bool {
-    !cfg.fields.is_empty() && !cfg.fields.iter().any(|f| f == field)
+/// Whether `field` of elements of `kind` is certainly hidden from p: some source lets p read
+/// the kind, and EVERY source that does carries a mask that leaves the field out (whichever of
+/// them the engine selects for an element, and even if it showed the union of their masks).
+fn masks(cfg: &GovCfg, kind: &str, field: &str) -> bool {
+    let mut reached = false;
+    for (kinds, fields) in cfg.read_sources() {
+        if !kinds.is_empty() && !kinds.iter().any(|k| k == kind) {
+            continue;
+        }
+        reached = true;
+        if fields.is_empty() || fields.iter().any(|f| f == field) {
+            return false;
+        }
+    }
+    reached
 }
 
 async fn space_seq(nx: &CognitiveNexus) -> Result<u64, String> {
@@ -747,10 +1182,13 @@ async fn build(name: &str, script: &Script, cfg: &GovCfg, variant: usize, tail: 
         nx,
         sym: BTreeMap::new(),
         vary_hidden: !masked_mode,
-        vary_attrs: masked_mode && masks(cfg, "attributes"),
-        vary_facets: masked_mode && masks(cfg, "facets"),
-        vary_stance: masked_mode && masks(cfg, "stance"),
-        vary_confidence: masked_mode && masks(cfg, "confidence"),
+        vary_attrs: masked_mode && masks(cfg, "concept", "attributes"),
+        vary_facets: masked_mode && masks(cfg, "concept", "facets"),
+        vary_stance: masked_mode && masks(cfg, "assertion", "stance"),
+        vary_confidence: masked_mode && masks(cfg, "assertion", "confidence"),
+        vary_mode: masked_mode && masks(cfg, "assertion", "mode"),
+        vary_name: masked_mode && masks(cfg, "concept", "name"),
+        vary_key: masked_mode && masks(cfg, "concept", "key"),
         base_seq: 0,
         start_seq: 0,
         hidden_as: hidden_as.clone(),
@@ -892,6 +1330,34 @@ fn battery(rng: &mut Rng, s: &Script) -> Vec<Q> {
         b.push(qp("masked_probe", "SEARCH CONCEPT :term", vec![("term", lit(nick.clone()))]));
         b.push(qp("masked_probe", r#"FIND(?c.id) WHERE { ?c CONCEPT {} FILTER(?c.attributes.nickname == :n) }"#, vec![("n", lit(nick.clone()))]));
         b.push(qp("masked_probe", r#"FIND(COUNT(?c)) WHERE { ?c CONCEPT {} FILTER(STARTS_WITH(?c.attributes.nickname, :n)) }"#, vec![("n", lit(nick))]));
+    }
+    // --- element patterns that constrain an INDEXED member a mask can hide (the index answers from
+    // the stored row): name / key of a visible person as they are in S1, stance / mode / status of
+    // assertions; bare, counted, negated, optional, in a union, paged, exported
+    for i in s.masked_names.iter().take(2) {
+        let n = s.hidden_vals[0][*i].clone();
+        b.push(qp("masked_pattern", r#"FIND(?c.id) WHERE { ?c CONCEPT {name: :n} }"#, vec![("n", lit(n.clone()))]));
+        b.push(qp("masked_pattern", r#"FIND(COUNT(?c)) WHERE { ?c CONCEPT {type: "Person", name: :n} }"#, vec![("n", lit(n))]));
+    }
+    for i in s.masked_keys.iter().take(2) {
+        let k = s.hidden_vals[0][*i].clone();
+        b.push(qp("masked_pattern", r#"FIND(?c.id) WHERE { ?c CONCEPT {type: "Person", key: :k} }"#, vec![("k", lit(k.clone()))]));
+        b.push(qp("masked_pattern", r#"FIND(?c.id) WHERE { ?c CONCEPT {type: "Person"} NOT { ?c CONCEPT {key: :k} } }"#, vec![("k", lit(k.clone()))]));
+        b.push(qp("masked_pattern", r#"FIND(?p.id, ?c.id) WHERE { ?p PROPOSITION (?s, "prefers", ?o) OPTIONAL { ?c CONCEPT {key: :k} } }"#, vec![("k", lit(k))]));
+    }
+    b.push(q("masked_pattern", r#"FIND(?a.id) WHERE { ?a ASSERTION {stance: "reject"} }"#));
+    b.push(q("masked_pattern", r#"FIND(COUNT(?a)) WHERE { ?a ASSERTION {stance: "support", mode: "observed"} }"#));
+    b.push(q("masked_pattern", r#"FIND(?a.id) WHERE { ?a ASSERTION {mode: "stated"} }"#));
+    b.push(q("masked_pattern", r#"FIND(COUNT(?a)) WHERE { ?a ASSERTION {mode: "observed"} }"#));
+    b.push(q("masked_pattern", r#"FIND(?a.id) WHERE { ?a ASSERTION {status: "active", stance: "support"} }"#));
+    b.push(q("masked_pattern", r#"FIND(?a.id) WHERE { ?a ASSERTION {} NOT { ?a ASSERTION {stance: "reject"} } }"#));
+    b.push(q("masked_pattern", r#"FIND(?c.id) WHERE { ?c CONCEPT {type: "Person"} NOT { ?a ASSERTION {asserted_by: ?c, mode: "stated"} } }"#));
+    b.push(q("masked_pattern", r#"FIND(?p.id, ?a.id) WHERE { ?p PROPOSITION (?s, ?pred, ?o) OPTIONAL { ?a ASSERTION {proposition: ?p, stance: "support"} } }"#));
+    b.push(q("masked_pattern", r#"FIND(?x.id) WHERE { ?x ASSERTION {mode: "stated"} UNION { ?x ASSERTION {stance: "reject", mode: "observed"} } }"#));
+    b.push(Q { paged: Some(1), ..q("masked_pattern", r#"FIND(?a.id) WHERE { ?a ASSERTION {stance: "support"} } ORDER BY ?a.id ASC LIMIT :lim"#) });
+    b.push(q("masked_pattern", r#"EXPORT CAPSULE ?a WHERE { ?a ASSERTION {stance: "reject"} }"#));
+    if let Some(p) = s.props.first() {
+        b.push(qp("masked_pattern", r#"FIND(?a.id) WHERE { ?a ASSERTION {proposition: :p, stance: "support"} }"#, vec![("p", PVal::Id(p.clone()))]));
     }
     // --- the first element only the bigger instance has (hidden there)
     let ghost = s.first_tail_concept.clone();
@@ -1256,7 +1722,7 @@ async fn search_limit_checks(sess: &Session, st: &mut Stats, case: u64, cfg: &Go
 
 /// The permission a battery command needs and p does not hold under `cfg`, if any.
 fn missing_permission(cfg: &GovCfg, cmd: &str) -> Option<&'static str> {
-    let holds = |a: &str| cfg.actions.iter().any(|x| x == a) || (cfg.second_grant && a == "search");
+    let holds = |a: &str| cfg.holds(a);
     let needs: &[&'static str] = if cmd.starts_with("SEARCH") {
         &["search"]
     } else if cmd.starts_with("HISTORY") || cmd.starts_with("CHANGES") || cmd.starts_with("SNAPSHOT") || cmd.starts_with("DESCRIBE SNAPSHOT") || cmd.starts_with("DESCRIBE TRANSACTION") {
@@ -1290,21 +1756,59 @@ fn ni_case(case: u64, rng: &mut Rng, st: &mut Stats, thorough: bool) {
     } else {
         Mode::HiddenElements
     };
+    // authority combined from several sources (round robin within each mode)
+    let nth = if mode == Mode::MaskedFields { case / 3 } else { (case / 3) * 2 + case % 3 };
+    combine_sources(rng, &mut cfg, mode, nth);
     // how the hidden elements are hidden: at the top of the ladder, exactly one step above p's
     // ceiling, under a label the engine does not know (ranks above every known one), or - under a
     // `public` ceiling - not labelled at all (the Space default `internal` applies, never `public`)
     if case % 8 == 7 {
         cfg.ceiling = "public";
+        for x in cfg.extras.iter_mut().filter(|x| !x.ceiling.is_empty()) {
+            x.ceiling = "public";
+        }
     }
-    let ladder = ["public", "internal", "private", "sensitive", "secret"];
-    let above = ladder[ladder.iter().position(|l| *l == cfg.ceiling).unwrap_or(3) + 1];
+    // a label that only an explicit deny statement takes away: within every ceiling of p
+    let denied_within = mode == Mode::HiddenElements && case % 16 == 9;
+    if denied_within {
+        cfg.ceiling = *rng.pick(&["private", "sensitive"]);
+        cfg.deny_label = Some("private");
+        cfg.deny_via_group = (case / 16) % 2 == 0;
+    }
+    let top = cfg.top_ceiling();
+    let above = LADDER[LADDER.iter().position(|l| *l == top).unwrap_or(3) + 1];
     let hidden_as = match case % 4 {
+        _ if denied_within => HiddenAs::Label("private".into()),
         0 => HiddenAs::Label("secret".into()),
         1 => HiddenAs::Label(above.into()),
         2 => HiddenAs::Label("compartment-x".into()),
-        _ if cfg.ceiling == "public" => HiddenAs::Unlabeled,
+        _ if top == "public" => HiddenAs::Unlabeled,
         _ => HiddenAs::Label(above.into()),
     };
+    // per kind: a kind that no source of p reaches is hidden whatever its label (also `public`,
+    // also none); where different kinds come from sources with different ceilings, an element
+    // sits one step above the ceiling of the source that reaches ITS kind - within the other's
+    let mut per_kind: BTreeMap<String, HiddenAs> = BTreeMap::new();
+    let (mut hidden_by_kind_scope_only, mut hidden_below_another_sources_ceiling) = (false, false);
+    for k in KINDS {
+        let low = [HiddenAs::Label("public".into()), HiddenAs::Label("internal".into()), HiddenAs::Unlabeled][rng.usize(3)].clone();
+        let use_low = rng.chance(2, 3);
+        if mode != Mode::HiddenElements || denied_within {
+            continue;
+        }
+        match cfg.top_ceiling_for(k) {
+            None if use_low => {
+                hidden_by_kind_scope_only = true;
+                per_kind.insert(k.to_string(), low);
+            }
+            Some(c) if cfg.shape == "kinds_split_over_two_ceilings" && rank_of(c) < rank_of(top) => {
+                hidden_below_another_sources_ceiling = true;
+                per_kind.insert(k.to_string(), HiddenAs::Label(LADDER[rank_of(c) + 1].into()));
+            }
+            _ => {}
+        }
+    }
+    let hidden_as = if per_kind.is_empty() { hidden_as } else { HiddenAs::PerKind(per_kind, Box::new(hidden_as)) };
     let bat = battery(rng, &script);
     let mut search_terms: Vec<String> = (0..2).map(|_| rng.pick(&WORDS).to_string()).collect();
     if let Some(w) = &script.crowd_word {
@@ -1325,13 +1829,40 @@ fn ni_case(case: u64, rng: &mut Rng, st: &mut Stats, thorough: bool) {
         let (o1, o2) = (w1.nx.system_session(), w2.nx.system_session());
         st.count("configurations");
         st.count(&format!("configurations_{}", mode.tag()));
-        st.count(&format!("hidden_as_{}", match &hidden_as {
+        if denied_within && cfg.deny_via_group {
+            st.count("deny_statement_reaches_p_through_a_group");
+        }
+        if hidden_by_kind_scope_only {
+            st.count("hidden_by_kind_scope_under_a_label_within_the_ceiling");
+        }
+        if hidden_below_another_sources_ceiling {
+            st.count("hidden_by_the_ceiling_of_the_source_over_its_kind_within_another_sources_ceiling");
+        }
+        st.count(&format!("hidden_as_{}", match if let HiddenAs::PerKind(_, default) = &hidden_as { default.as_ref() } else { &hidden_as } {
+            HiddenAs::PerKind(..) => "per_kind",
+            HiddenAs::Label(_) if denied_within => "a_label_only_a_deny_statement_takes_away",
             HiddenAs::Label(l) if l == "secret" => "secret",
             HiddenAs::Label(l) if l == "compartment-x" => "unknown_label",
             HiddenAs::Label(_) => "one_step_above_the_ceiling",
             HiddenAs::Unlabeled => "unlabeled_under_a_public_ceiling",
         }));
         st.count(&format!("config_path_{}", cfg.path));
+        st.count(&format!("config_shape_{}_{}", mode.tag(), cfg.shape));
+        for x in &cfg.extras {
+            st.count(&format!("config_extra_source_via_{}", x.via));
+            st.count(&format!("config_sources_{}_plus_{}", cfg.path, x.via));
+            if x.expired {
+                st.count("config_extra_source_expired");
+            }
+        }
+        if mode == Mode::MaskedFields {
+            for (on, what) in [(w2.vary_attrs, "concept_attributes"), (w2.vary_facets, "concept_facets"), (w2.vary_name, "concept_name"), (w2.vary_key, "concept_key"),
+                (w2.vary_stance, "assertion_stance"), (w2.vary_confidence, "assertion_confidence"), (w2.vary_mode, "assertion_mode")] {
+                if on {
+                    st.count(&format!("masked_configurations_varying_{what}"));
+                }
+            }
+        }
         let mut nontrivial = false;
         let mut allowed_some = false;
         for q in &bat {
@@ -1373,7 +1904,7 @@ fn ni_case(case: u64, rng: &mut Rng, st: &mut Stats, thorough: bool) {
             // an Epistemic Projection may be computed from assertions whose raw stance / confidence
             // the caller's mask hides (Spec 29.4: `project` is a permission of its own and "MAY allow
             // a projected result without revealing raw Evidence"): not judged, counted
-            let judged = !(q.family == "belief" && (w2.vary_stance || w2.vary_confidence));
+            let judged = !(q.family == "belief" && (w2.vary_stance || w2.vary_confidence || w2.vary_mode));
             if !judged {
                 st.count("belief_pairs_not_judged_projection_may_use_masked_fields");
             }
@@ -1453,6 +1984,12 @@ fn ni_case(case: u64, rng: &mut Rng, st: &mut Stats, thorough: bool) {
                     st.count("ni_pairs_p_answered_and_owner_sees_difference");
                     st.count(&format!("ni_decisive_pairs_{}", q.family));
                     st.count(&format!("ni_decisive_pairs_mode_{}", mode.tag()));
+                    if cfg.shape != "single_source" {
+                        st.count(&format!("ni_decisive_pairs_shape_{}", cfg.shape));
+                        if q.family == "masked_pattern" {
+                            st.count(&format!("ni_decisive_masked_pattern_pairs_shape_{}", cfg.shape));
+                        }
+                    }
                 }
             }
         }
@@ -1525,11 +2062,31 @@ fn timeline_case(case: u64, rng: &mut Rng, st: &mut Stats) {
         }
         _ => {}
     }
+    // one of two sources goes away: p keeps an independent second source (own route, own bounds),
+    // and its next request equals that of a fresh principal holding only that source
+    if rng.chance(2, 5) {
+        let mut kinds: Vec<String> = if rng.bool() { vec![] } else { KINDS.iter().filter(|_| rng.bool()).map(|k| k.to_string()).collect() };
+        if kinds.len() == KINDS.len() {
+            kinds.clear();
+        }
+        let fields = if rng.chance(1, 3) { mask_without(rng, &["name", "key", "attributes", "_system", "stance", "confidence", "subject", "object", "predicate_ref", "payload"], &[]) } else { vec![] };
+        cfg.extras.push(Extra {
+            via: *rng.pick(&["grant", "group", "delegation"]),
+            kinds,
+            fields,
+            ceiling: *rng.pick(&["public", "internal", "private", "sensitive"]),
+            ceiling_as_scope: rng.chance(1, 3),
+            max_results: None,
+            actions: read_actions(rng),
+            expired: rng.chance(1, 5),
+        });
+        cfg.shape = "a_second_source_is_kept";
+    }
     let res: Result<(), String> = vcore::run::block_on(async {
         let nx = fresh_nexus(&format!("c19_tl_{case}")).await?;
         let gov = nx.governance();
         let mut policy = vec![];
-        let mut w = World { nx: nx.clone(), sym: BTreeMap::new(), vary_hidden: false, vary_attrs: false, vary_facets: false, vary_stance: false, vary_confidence: false, base_seq: 0, start_seq: 0, hidden_as: HiddenAs::Label("secret".into()) };
+        let mut w = World::plain(nx.clone());
         run_steps(&mut w, &script, &script.steps, 0).await?;
         // p's authority; for "expiry" the root grant lapses a few milliseconds from now
         let inst = if event == "expiry" {
@@ -1545,6 +2102,7 @@ fn timeline_case(case: u64, rng: &mut Rng, st: &mut Stats) {
             };
             g.conditions = AuthorityConditions { valid_until: until, ..Default::default() };
             let id = gov.create_grant(g, SYSTEM_PRINCIPAL).await.map_err(gerr("create_grant"))?._id;
+            install_extras(&nx, &cfg, P, "", &mut policy).await?;
             Installed { grants: vec![id], ..Default::default() }
         } else {
             install(&nx, &cfg, P, "", &mut policy).await?
@@ -1596,8 +2154,18 @@ fn timeline_case(case: u64, rng: &mut Rng, st: &mut Stats) {
         }
         st.count(&format!("timeline_event_{event}"));
         // --- what p still holds: only the narrow second grant (when there is one and p is alive)
-        let keeps_second = cfg.second_grant && event != "expiry" && !matches!(event, "suspend" | "revoke_principal" | "deny");
+        let alive = !matches!(event, "suspend" | "revoke_principal" | "deny");
+        let keeps_second = cfg.second_grant && event != "expiry" && alive;
+        let keeps_extras = alive && !cfg.extras.is_empty();
         principal(&nx, FRESH).await?;
+        if keeps_extras {
+            // the same further sources, through routes of their own (no policy route here)
+            let mut unused = vec![];
+            install_extras(&nx, &cfg, FRESH, ":fresh", &mut unused).await?;
+            st.count("timeline_one_of_two_sources_removed");
+            st.count(&format!("timeline_one_of_two_sources_removed_{event}"));
+            st.count(&format!("timeline_kept_source_via_{}", cfg.extras[0].via));
+        }
         if keeps_second {
             gov.create_grant(
                 GrantDraft {
@@ -1630,6 +2198,9 @@ fn timeline_case(case: u64, rng: &mut Rng, st: &mut Stats) {
             st.count("timeline_next_request_checks");
             if succeeded(&a) {
                 still_allowed += 1;
+                if keeps_extras {
+                    st.count("timeline_answered_from_the_kept_source");
+                }
             }
             if succeeded(&before[i]) && !succeeded(&a) {
                 st.count("timeline_allowed_before_denied_after");
@@ -1637,7 +2208,7 @@ fn timeline_case(case: u64, rng: &mut Rng, st: &mut Stats) {
             // "access is denied unless an active owner, grant, delegation or policy statement allows
             // it": a principal that holds nothing is refused every read of the Space's content
             let reads_content = ["FIND", "SEARCH", "HISTORY", "CHANGES", "EXPORT", "PREVIEW"].iter().any(|k| q.cmd.starts_with(k));
-            if !keeps_second && reads_content {
+            if !keeps_second && !keeps_extras && reads_content {
                 st.count("access_checks_principal_without_authority");
                 for (who, ans) in [("fresh", &b), ("p_after_the_event", &a)] {
                     if !is_denied(ans) {
@@ -1658,7 +2229,7 @@ fn timeline_case(case: u64, rng: &mut Rng, st: &mut Stats) {
                 );
             }
         }
-        if !keeps_second && still_allowed > 0 {
+        if !keeps_second && !keeps_extras && still_allowed > 0 {
             // p holds nothing any more: the only answers left are those that need no permission
             st.count("timeline_answers_needing_no_permission");
         }
@@ -1708,22 +2279,224 @@ fn ids_in(v: &Value, out: &mut BTreeSet<String>) {
     }
 }
 
+/// Element views mentioned anywhere in an answer: id -> names of the members shown.
+fn views_in(v: &Value, out: &mut BTreeMap<String, BTreeSet<String>>) {
+    match v {
+        Value::Object(m) => {
+            if let (Some(Value::String(id)), Some(_)) = (m.get("id"), m.get("kind")) {
+                out.entry(id.clone()).or_default().extend(m.keys().cloned());
+            }
+            m.values().for_each(|x| views_in(x, out));
+        }
+        Value::Array(a) => a.iter().for_each(|x| views_in(x, out)),
+        _ => {}
+    }
+}
+
+/// How one bound of a Delegation record relates to the same bound of what it descends from.
+#[derive(Clone, Copy, Debug, PartialEq, Eq)]
+enum Rel {
+    /// restated as it is
+    Equal,
+    /// narrower
+    Tighter,
+    /// not stated at all (for a list / ceiling that means "everything")
+    Empty,
+    /// wider than the delegator's
+    Looser,
+}
+
+/// The bounds a Delegation can (re)state.
+const DIMS: [&str; 7] = ["max_classification", "classification_scope", "fields", "max_results", "kinds", "actions", "max_influence_authority"];
+
+/// The (bound, relation) pairs that must confer nothing beyond the delegator's; `None` = every
+/// bound of every link is contained. Taken round robin, so that a quick run has them all.
+const BAD_SLOTS: [Option<(&str, Rel)>; 16] = [
+    Some(("max_classification", Rel::Empty)),
+    Some(("max_classification", Rel::Looser)),
+    Some(("classification_scope", Rel::Empty)),
+    Some(("classification_scope", Rel::Looser)),
+    Some(("fields", Rel::Empty)),
+    Some(("fields", Rel::Looser)),
+    Some(("max_results", Rel::Empty)),
+    Some(("max_results", Rel::Looser)),
+    Some(("kinds", Rel::Empty)),
+    Some(("kinds", Rel::Looser)),
+    Some(("actions", Rel::Looser)),
+    Some(("max_influence_authority", Rel::Empty)),
+    Some(("max_influence_authority", Rel::Looser)),
+    Some(("max_classification", Rel::Empty)),
+    None,
+    None,
+];
+
+fn step_on(ladder: &[&'static str], at: &str, up: bool) -> String {
+    let i = ladder.iter().position(|l| *l == at).unwrap_or(0);
+    let j = if up { (i + 1).min(ladder.len() - 1) } else { i.saturating_sub(1) };
+    ladder[j].to_string()
+}
+
+/// A Delegation record derived from what it descends from, one relation per bound.
+fn derive_link(rng: &mut Rng, parent: &LinkSpec, rel: &dyn Fn(&str) -> Rel) -> LinkSpec {
+    let strs = |xs: &[&str]| xs.iter().map(|x| x.to_string()).collect::<Vec<String>>();
+    let pc = &parent.constraints;
+    let max_classification = match (pc.max_classification.is_empty(), rel("max_classification")) {
+        (true, Rel::Tighter) => rng.pick(&["internal", "private", "sensitive"]).to_string(),
+        (true, _) => String::new(),
+        (false, Rel::Equal) => pc.max_classification.clone(),
+        (false, Rel::Tighter) => step_on(&LADDER, &pc.max_classification, false),
+        (false, Rel::Empty) => String::new(),
+        (false, Rel::Looser) => step_on(&LADDER, &pc.max_classification, true),
+    };
+    let pl = &parent.scope.classifications;
+    let classifications = match (pl.is_empty(), rel("classification_scope")) {
+        (true, _) => vec![],
+        (false, Rel::Equal) => pl.clone(),
+        (false, Rel::Tighter) => pl[..pl.len().max(2) - 1].to_vec(),
+        (false, Rel::Empty) => vec![],
+        (false, Rel::Looser) => {
+            let mut l = pl.clone();
+            l.push(LADDER[pl.len().min(LADDER.len() - 1)].to_string());
+            l
+        }
+    };
+    let pool: Vec<&str> = CONCEPT_FIELDS.iter().chain(ASSERTION_FIELDS.iter()).chain(["subject", "object", "predicate_ref", "payload", "evidence_class"].iter()).copied().collect();
+    let fields = match (pc.fields.is_empty(), rel("fields")) {
+        (true, Rel::Tighter) => mask_without(rng, &pool, &[]),
+        (true, _) => vec![],
+        (false, Rel::Equal) => pc.fields.clone(),
+        (false, Rel::Tighter) => pc.fields[..1 + rng.usize(pc.fields.len())].to_vec(),
+        (false, Rel::Empty) => vec![],
+        (false, Rel::Looser) => {
+            let mut f = pc.fields.clone();
+            f.extend(pool.iter().filter(|x| !pc.fields.iter().any(|y| y == *x)).take(3).map(|x| x.to_string()));
+            f
+        }
+    };
+    let max_results = match (pc.max_results, rel("max_results")) {
+        (None, Rel::Tighter) => Some(2 + rng.below(3)),
+        (None, _) => None,
+        (Some(n), Rel::Equal) => Some(n),
+        (Some(n), Rel::Tighter) => Some(n.saturating_sub(1).max(1)),
+        (Some(_), Rel::Empty) => None,
+        (Some(n), Rel::Looser) => Some(n + 2 + rng.below(3)),
+    };
+    let pk = &parent.scope.kinds;
+    let kinds = match (pk.is_empty(), rel("kinds")) {
+        (true, Rel::Tighter) => {
+            let mut k = strs(&KINDS);
+            rng.shuffle(&mut k);
+            k[..2 + rng.usize(2)].to_vec()
+        }
+        (true, _) => vec![],
+        (false, Rel::Equal) => pk.clone(),
+        (false, Rel::Tighter) => pk[..1 + rng.usize(pk.len())].to_vec(),
+        (false, Rel::Empty) => vec![],
+        (false, Rel::Looser) => {
+            let mut k = pk.clone();
+            k.extend(KINDS.iter().filter(|x| !pk.iter().any(|y| y == *x)).map(|x| x.to_string()));
+            k
+        }
+    };
+    let actions = match rel("actions") {
+        Rel::Tighter => parent.actions.iter().filter(|a| *a == "read" || *a == "elevate_authority" || rng.chance(2, 3)).cloned().collect(),
+        Rel::Looser => {
+            let mut a = parent.actions.clone();
+            a.extend(READ_ACTIONS.iter().chain(["update", "elevate_authority"].iter()).filter(|x| !parent.actions.iter().any(|y| y == *x)).map(|x| x.to_string()));
+            a
+        }
+        _ => parent.actions.clone(),
+    };
+    let max_influence_authority = match (pc.max_influence_authority.is_empty(), rel("max_influence_authority")) {
+        (true, Rel::Tighter) => "behavioral".to_string(),
+        (true, _) => String::new(),
+        (false, Rel::Equal) => pc.max_influence_authority.clone(),
+        (false, Rel::Tighter) => step_on(&INFLUENCE, &pc.max_influence_authority, false),
+        (false, Rel::Empty) => String::new(),
+        (false, Rel::Looser) => step_on(&INFLUENCE, &pc.max_influence_authority, true),
+    };
+    LinkSpec {
+        actions,
+        scope: AuthorityScope { kinds, classifications, ..Default::default() },
+        constraints: AuthorityConstraints { fields, max_results, max_influence_authority, max_classification, export: pc.export },
+    }
+}
+
 /// "A delegation never confers more than its delegator currently holds."
+///
+/// Every Delegation record states its own bounds, drawn independently of the delegator's: not
+/// stated / restated / narrower / WIDER, per bound (classification ceiling as constraint and as
+/// scope list, field mask, max_results, kinds, actions, influence-authority ceiling), in chains of
+/// one to three links. Whatever the engine makes of a record, the delegate (a) is denied wherever
+/// a delegator up the chain is, (b) sees no element id, (c) no member of an element and (d) no
+/// more rows than that delegator, and (e) raises no element's influence authority where that
+/// delegator is refused - on a population that has elements above every ceiling.
 fn delegation_case(case: u64, rng: &mut Rng, st: &mut Stats) {
     let script = gen_script(rng, 4);
     let mut cfg = gen_cfg(rng);
     cfg.path = if rng.bool() { "delegation" } else { "chain" };
     cfg.second_grant = false;
     cfg.deny_label = None;
+    // --- the delegator's grant states the bound under test; the links are drawn against it
+    // every other case has a link that must confer nothing beyond the delegator's; the others are
+    // contained in every bound (restated or narrower), so that the delegate does hold something
+    let slot = if case % 2 == 0 { BAD_SLOTS[((case / 2) % BAD_SLOTS.len() as u64) as usize] } else { None };
+    let n_links = if cfg.path == "delegation" { 1 } else { 2 + rng.usize(2) };
+    let bad_link = rng.usize(n_links);
+    match slot.map(|s| s.0) {
+        Some("max_classification") => cfg.ceiling_as_scope = false,
+        Some("classification_scope") => cfg.ceiling_as_scope = true,
+        Some("fields") if cfg.fields.is_empty() => cfg.fields = vec!["name".into(), "_system".into(), "stance".into(), "subject".into(), "object".into()],
+        Some("max_results") if cfg.max_results.is_none() => cfg.max_results = Some(1 + rng.below(3)),
+        Some("kinds") if cfg.kinds.is_empty() || cfg.kinds.len() == KINDS.len() => {
+            cfg.kinds = vec!["concept".into(), (*rng.pick(&["proposition", "assertion"])).to_string()];
+        }
+        Some("actions") => {
+            let drop = *rng.pick(&["search", "read_history", "export"]);
+            cfg.actions.retain(|a| a != drop);
+        }
+        _ => {}
+    }
+    if slot.map(|s| s.0) == Some("max_influence_authority") || rng.chance(1, 3) {
+        cfg.influence = *rng.pick(&["advisory", "behavioral"]);
+        cfg.actions.push("elevate_authority".into());
+    }
+    let mut parent = LinkSpec { actions: cfg.actions.clone(), scope: cfg.scope(), constraints: cfg.constraints() };
+    for i in 0..n_links {
+        let loose_here = slot.filter(|_| i == bad_link);
+        let contained: Vec<Rel> = DIMS.iter().map(|_| if rng.chance(1, 4) { Rel::Tighter } else { Rel::Equal }).collect();
+        let link = derive_link(rng, &parent, &|dim: &str| match loose_here {
+            Some((d, r)) if d == dim => r,
+            _ => contained[DIMS.iter().position(|x| *x == dim).unwrap_or(0)],
+        });
+        cfg.links.push(link.clone());
+        parent = link;
+    }
+    let slot_key = match slot {
+        Some((d, r)) => format!("{d}_{}", format!("{r:?}").to_lowercase()),
+        None => "every_bound_contained".to_string(),
+    };
     let bat = battery(rng, &script);
     let res: Result<(), String> = vcore::run::block_on(async {
         let nx = fresh_nexus(&format!("c19_dg_{case}")).await?;
         let gov = nx.governance();
-        let mut w = World { nx: nx.clone(), sym: BTreeMap::new(), vary_hidden: false, vary_attrs: false, vary_facets: false, vary_stance: false, vary_confidence: false, base_seq: 0, start_seq: 0, hidden_as: HiddenAs::Label("secret".into()) };
+        let mut w = World::plain(nx.clone());
         run_steps(&mut w, &script, &script.steps, 0).await?;
         let mut none = vec![];
         let inst = install(&nx, &cfg, P, "", &mut none).await?;
-        let (delegate, delegator) = (session(&nx, P), session(&nx, LEAD));
+        let delegate = session(&nx, P);
+        // the root delegator and, in a chain, the delegate's own delegator
+        // (name, session, whether a result cap makes the SET of rows it is shown arbitrary)
+        let mut delegators: Vec<(&str, Session, bool)> = vec![("root_delegator", session(&nx, LEAD), cfg.max_results.is_some())];
+        if n_links > 1 {
+            let capped = cfg.max_results.is_some() || cfg.links[..n_links - 1].iter().any(|l| l.constraints.max_results.is_some());
+            delegators.push(("immediate_delegator", session(&nx, [MID, MID2][n_links - 2]), capped));
+        }
+        st.count(&format!("delegation_links_{n_links}"));
+        st.count(&format!("delegation_link_{slot_key}"));
+        if slot.is_some() {
+            st.count(&format!("delegation_unbounded_or_wider_link_at_{}", if bad_link == 0 { "first" } else if bad_link + 1 == n_links { "last" } else { "middle" }));
+        }
         let phases = ["initial", ["narrowed_ceiling", "narrowed_kinds", "narrowed_actions", "delegator_suspended"][(case % 4) as usize], "revoked"];
         for phase in phases {
             match phase {
@@ -1762,36 +2535,116 @@ fn delegation_case(case: u64, rng: &mut Rng, st: &mut Stats) {
                 }
             }
             st.count(&format!("delegation_phase_{phase}"));
+            let mut delegate_allowed_some = false;
             for q in &bat {
-                let a_lead = mask(&observe(&delegator, &w, &script, 0, q).await);
                 let a_del = mask(&observe(&delegate, &w, &script, 0, q).await);
-                st.eval();
-                st.count("delegation_checks");
-                let ctx = |what: &str| json!({"case": case, "phase": phase, "what": what, "config": format!("{cfg:?}"), "query": q.cmd,
-                    "params": w.params(&script, 0, &q.params), "delegator": short(&a_lead, 1000), "delegate": short(&a_del, 1000)});
-                if is_denied(&a_lead) {
-                    st.count("delegation_delegator_denied");
-                    if !is_denied(&a_del) && succeeded(&a_del) {
-                        report(st, format!("C19/delegation/{phase}/delegate_allowed_where_delegator_is_denied"), ctx("denied to the delegator, answered to the delegate"));
-                    }
-                }
                 if succeeded(&a_del) {
                     st.count("delegation_delegate_allowed");
+                    // (commands like DESCRIBE PRIMER need no permission at all)
+                    delegate_allowed_some |= q.family == "element";
                 }
-                // the delegate never sees an element the delegator cannot see (monotone queries only)
-                let monotone = matches!(q.family, "element" | "element_by_id" | "tuple" | "path" | "history" | "changes") && !q.cmd.contains("LIMIT") && cfg.max_results.is_none();
-                if monotone && succeeded(&a_del) && succeeded(&a_lead) {
-                    let (mut x, mut y) = (BTreeSet::new(), BTreeSet::new());
-                    ids_in(&a_del["results"][0]["result"], &mut x);
-                    ids_in(&a_lead["results"][0]["result"], &mut y);
-                    st.count("delegation_subset_checks");
-                    let extra: Vec<&String> = x.difference(&y).collect();
-                    if !extra.is_empty() {
-                        report(st, format!("C19/delegation/{phase}/delegate_sees_more_than_delegator"), json!({"case": case, "extra_ids": extra, "context": ctx("ids visible to the delegate only")}));
+                for (who, delegator, capped) in &delegators {
+                    let a_lead = mask(&observe(delegator, &w, &script, 0, q).await);
+                    st.eval();
+                    st.count("delegation_checks");
+                    st.count(&format!("delegation_checks_against_the_{who}"));
+                    let ctx = |what: &str| json!({"case": case, "phase": phase, "against": who, "what": what, "links": n_links, "link_under_test": slot_key, "at_link": bad_link, "config": format!("{cfg:?}"), "query": q.cmd,
+                        "params": w.params(&script, 0, &q.params), "delegator": short(&a_lead, 1000), "delegate": short(&a_del, 1000)});
+                    if is_denied(&a_lead) {
+                        st.count("delegation_delegator_denied");
+                        if !is_denied(&a_del) && succeeded(&a_del) {
+                            report(st, format!("C19/delegation/{phase}/delegate_allowed_where_delegator_is_denied"), ctx("denied to the delegator, answered to the delegate"));
+                        }
+                    }
+                    if !(succeeded(&a_del) && succeeded(&a_lead)) {
+                        continue;
+                    }
+                    // the delegate never sees an element the delegator cannot see (monotone queries only)
+                    let monotone = matches!(q.family, "element" | "element_by_id" | "tuple" | "path" | "history" | "changes") && !q.cmd.contains("LIMIT");
+                    if monotone && !*capped {
+                        let (mut x, mut y) = (BTreeSet::new(), BTreeSet::new());
+                        ids_in(&a_del["results"][0]["result"], &mut x);
+                        ids_in(&a_lead["results"][0]["result"], &mut y);
+                        st.count("delegation_subset_checks");
+                        if !y.is_empty() {
+                            st.count("delegation_subset_checks_delegator_sees_something");
+                        }
+                        let extra: Vec<&String> = x.difference(&y).collect();
+                        if !extra.is_empty() {
+                            report(st, format!("C19/delegation/{phase}/delegate_sees_more_than_delegator"), json!({"case": case, "extra_ids": extra, "context": ctx("ids visible to the delegate only")}));
+                        }
+                    }
+                    // ... nor more rows: its result cap is at most the delegator's and it matches
+                    // within a subset of the delegator's elements
+                    if monotone && matches!(q.family, "element" | "tuple" | "path") {
+                        let rows = |a: &Value| a["results"][0]["result"].as_array().map(|r| r.len());
+                        if let (Some(rd), Some(rl)) = (rows(&a_del), rows(&a_lead)) {
+                            st.count("delegation_row_count_checks");
+                            if *capped && rd == rl && rd > 0 {
+                                st.count("delegation_row_count_checks_delegator_at_its_cap");
+                            }
+                            if rd > rl {
+                                report(st, format!("C19/delegation/{phase}/delegate_gets_more_rows_than_delegator"), json!({"case": case, "rows_delegate": rd, "rows_delegator": rl, "context": ctx("more rows for the delegate")}));
+                            }
+                        }
+                    }
+                    // ... nor more of any element both of them are shown (field mask)
+                    let (mut vd, mut vl) = (BTreeMap::new(), BTreeMap::new());
+                    views_in(&a_del["results"][0]["result"], &mut vd);
+                    views_in(&a_lead["results"][0]["result"], &mut vl);
+                    for (id, members) in &vd {
+                        let Some(shown) = vl.get(id) else { continue };
+                        st.count("delegation_view_checks");
+                        if !cfg.fields.is_empty() {
+                            st.count("delegation_view_checks_delegator_is_masked");
+                        }
+                        let extra: Vec<&String> = members.difference(shown).collect();
+                        if !extra.is_empty() {
+                            report(st, format!("C19/delegation/{phase}/delegate_is_shown_members_the_delegator_is_not"), json!({"case": case, "element": id, "extra_members": extra, "context": ctx("members of an element shown to the delegate only")}));
+                            break;
+                        }
+                    }
+                }
+            }
+            if delegate_allowed_some {
+                st.count(&format!("delegation_link_{slot_key}_conferred_something_{}", if phase == "initial" { "initially" } else { "later" }));
+            }
+            // the influence-authority ceiling: raising an element's ceiling is refused to the
+            // delegate wherever it is refused to a delegator (same element, put back in between)
+            if phase != "revoked" && cfg.actions.iter().any(|a| a == "elevate_authority") {
+                let owner = nx.system_session();
+                let target = element_id(&w.id("person0"))?;
+                let reset = || async { owner.elevate_authority(DEFAULT_SPACE, target, "descriptive").await.map(|_| ()).map_err(gerr("reset influence authority")) };
+                for class in ["advisory", "behavioral", "executable"] {
+                    let by_delegate = delegate.elevate_authority(DEFAULT_SPACE, target, class).await;
+                    reset().await?;
+                    for (who, delegator, _) in &delegators {
+                        let by_delegator = delegator.elevate_authority(DEFAULT_SPACE, target, class).await;
+                        reset().await?;
+                        st.eval();
+                        st.count("delegation_influence_checks");
+                        if by_delegator.is_err() {
+                            st.count("delegation_influence_delegator_refused");
+                        } else {
+                            st.count("delegation_influence_delegator_allowed");
+                        }
+                        if by_delegate.is_ok() {
+                            st.count("delegation_influence_delegate_allowed");
+                        }
+                        if let (Ok(_), Err(e)) = (&by_delegate, &by_delegator) {
+                            report(
+                                st,
+                                format!("C19/delegation/{phase}/delegate_raises_influence_authority_where_delegator_is_refused"),
+                                json!({"case": case, "phase": phase, "against": who, "class": class, "element": target.to_string(), "links": n_links, "link_under_test": slot_key, "at_link": bad_link,
+                                    "config": format!("{cfg:?}"), "delegator_refused_with": format!("{} {}", e.name(), e.message)}),
+                            );
+                        }
                     }
                 }
             }
         }
+        st.sample(|| json!({"monitor": "delegation", "case": case, "links": n_links, "link_under_test": slot_key, "at_link": bad_link, "grant": {"actions": cfg.actions, "scope": format!("{:?}", cfg.scope()), "constraints": format!("{:?}", cfg.constraints())},
+            "records": cfg.links.iter().map(|l| format!("{l:?}")).collect::<Vec<_>>()}));
         Ok(())
     });
     if let Err(e) = res {
@@ -2128,7 +2981,7 @@ fn main() {
     let t = run.tier;
     let thorough = t == vcore::Tier::Thorough;
     if run.wants("ni") {
-        run.parallel("ni", t.pick(48, 1700), 0.6, |c, rng, st| ni_case(c, rng, st, thorough));
+        run.parallel("ni", t.pick(64, 1700), 0.6, |c, rng, st| ni_case(c, rng, st, thorough));
     }
     if run.wants("timeline") {
         run.parallel("timeline", t.pick(48, 1300), 0.4, |c, rng, st| timeline_case(c, rng, st));
@@ -2137,7 +2990,7 @@ fn main() {
         run.parallel("escalation", t.pick(14, 320), 0.6, |c, rng, st| escalation_case(c, rng, st));
     }
     if run.wants("delegation") {
-        run.parallel("delegation", t.pick(24, 700), 0.5, |c, rng, st| delegation_case(c, rng, st));
+        run.parallel("delegation", t.pick(64, 1400), 0.5, |c, rng, st| delegation_case(c, rng, st));
     }
     // --- evidence floors: every mechanism the property names was exercised
     // thorough runs ~35x the configurations of quick; its floors are 20x quick's, which leaves room
@@ -2170,6 +3023,39 @@ fn main() {
         ("ni_decisive_pairs_tail_tx", f(5)),
         ("ni_decisive_pairs_tail_element", f(10)),
         ("ni_decisive_pairs_masked_probe", f(20)),
+        ("ni_decisive_pairs_masked_pattern", f(200)),
+        // authority combined from several sources
+        ("config_shape_masked_fields_masked_assertions_beside_unmasked_concepts", f(3)),
+        ("config_shape_masked_fields_masked_concepts_beside_unmasked_assertions", f(3)),
+        ("config_shape_masked_fields_two_masks_over_the_same_kinds", f(3)),
+        ("config_shape_hidden_elements_two_sources_with_different_ceilings", f(4)),
+        ("config_shape_hidden_elements_unbounded_source_that_expired", f(4)),
+        ("config_shape_hidden_elements_unbounded_source_without_read", f(4)),
+        ("config_shape_hidden_elements_kinds_split_over_two_ceilings", f(4)),
+        ("config_extra_source_via_grant", f(3)),
+        ("config_extra_source_via_group", f(3)),
+        ("config_extra_source_via_policy", f(3)),
+        ("config_extra_source_via_delegation", f(3)),
+        ("config_extra_source_expired", f(6)),
+        ("masked_configurations_varying_concept_attributes", f(3)),
+        ("masked_configurations_varying_concept_facets", f(3)),
+        ("masked_configurations_varying_concept_name", f(2)),
+        ("masked_configurations_varying_concept_key", f(3)),
+        ("masked_configurations_varying_assertion_stance", f(3)),
+        ("masked_configurations_varying_assertion_confidence", f(3)),
+        ("masked_configurations_varying_assertion_mode", f(3)),
+        ("ni_decisive_pairs_shape_masked_assertions_beside_unmasked_concepts", f(8)),
+        ("ni_decisive_pairs_shape_masked_concepts_beside_unmasked_assertions", f(30)),
+        ("ni_decisive_pairs_shape_two_masks_over_the_same_kinds", f(30)),
+        ("ni_decisive_masked_pattern_pairs_shape_masked_assertions_beside_unmasked_concepts", f(4)),
+        ("ni_decisive_masked_pattern_pairs_shape_masked_concepts_beside_unmasked_assertions", f(6)),
+        ("ni_decisive_masked_pattern_pairs_shape_two_masks_over_the_same_kinds", f(8)),
+        ("ni_decisive_pairs_shape_two_sources_with_different_ceilings", f(100)),
+        ("ni_decisive_pairs_shape_unbounded_source_that_expired", f(100)),
+        ("ni_decisive_pairs_shape_unbounded_source_without_read", f(100)),
+        ("ni_decisive_pairs_shape_kinds_split_over_two_ceilings", f(100)),
+        ("hidden_as_a_label_only_a_deny_statement_takes_away", f(2)),
+        ("deny_statement_reaches_p_through_a_group", t.pick(1, 10)),
         ("config_path_grant", 1),
         ("config_path_group", 1),
         ("config_path_delegation", 1),
@@ -2189,6 +3075,8 @@ fn main() {
         ("timeline_event_revoke_delegation", f(4)),
         ("timeline_next_request_checks", f(2000)),
         ("timeline_allowed_before_denied_after", f(800)),
+        ("timeline_one_of_two_sources_removed", f(5)),
+        ("timeline_answered_from_the_kept_source", f(300)),
         // delegation
         ("delegation_phase_initial", f(16)),
         ("delegation_phase_narrowed_ceiling", f(3)),
@@ -2199,6 +3087,37 @@ fn main() {
         ("delegation_delegator_denied", f(1000)),
         ("delegation_delegate_allowed", f(500)),
         ("delegation_subset_checks", f(150)),
+        ("delegation_subset_checks_delegator_sees_something", f(150)),
+        ("delegation_links_1", f(12)),
+        ("delegation_links_2", f(6)),
+        ("delegation_links_3", f(6)),
+        ("delegation_link_every_bound_contained", f(20)),
+        ("delegation_link_every_bound_contained_conferred_something_initially", f(8)),
+        ("delegation_link_max_classification_empty", t.pick(2, 30)),
+        ("delegation_link_max_classification_looser", t.pick(2, 30)),
+        ("delegation_link_classification_scope_empty", t.pick(2, 30)),
+        ("delegation_link_classification_scope_looser", t.pick(2, 30)),
+        ("delegation_link_fields_empty", t.pick(2, 30)),
+        ("delegation_link_fields_looser", t.pick(2, 30)),
+        ("delegation_link_max_results_empty", t.pick(2, 30)),
+        ("delegation_link_max_results_looser", t.pick(2, 30)),
+        ("delegation_link_kinds_empty", t.pick(2, 30)),
+        ("delegation_link_kinds_looser", t.pick(2, 30)),
+        ("delegation_link_actions_looser", t.pick(2, 30)),
+        ("delegation_link_max_influence_authority_empty", t.pick(2, 30)),
+        ("delegation_link_max_influence_authority_looser", t.pick(2, 30)),
+        ("delegation_unbounded_or_wider_link_at_first", f(8)),
+        ("delegation_unbounded_or_wider_link_at_last", f(2)),
+        ("delegation_unbounded_or_wider_link_at_middle", t.pick(1, 10)),
+        ("delegation_checks_against_the_immediate_delegator", f(5000)),
+        ("delegation_row_count_checks", f(400)),
+        ("delegation_row_count_checks_delegator_at_its_cap", f(10)),
+        ("delegation_view_checks", f(500)),
+        ("delegation_view_checks_delegator_is_masked", f(50)),
+        ("delegation_influence_checks", f(100)),
+        ("delegation_influence_delegator_refused", f(80)),
+        ("delegation_influence_delegator_allowed", f(10)),
+        ("delegation_influence_delegate_allowed", f(3)),
         // no self-escalation
         ("escalation_commands_writer", f(1000)),
         ("escalation_commands_reader", f(1000)),
